@@ -644,6 +644,95 @@ impl CqCase {
     }
 }
 
+impl CqCase {
+    /// `cq pwake`: a ring of its own; two reads complete in one batch, the first one's waker is an
+    /// ordinary one, the second one's waker panics inside `Ring::poll`. The first read's result is
+    /// taken and its future dropped (its state is released); the NEXT `Ring::poll` must not process
+    /// the batch again (fix ecc12ae: the head is stored while unwinding as well).
+    fn do_pwake(&mut self) -> Vec<String> {
+        let pre = simk::drain_events();
+        simk::purge_closed_except(self.rfd);
+        let held_main = simk::hold_fd(self.rfd);
+        let before: Vec<i32> = simk::with_sim(|s| s.rings.keys().copied().collect());
+        let built = Ring::config().with_submission_queue_size(4).build();
+        if held_main {
+            simk::release_fd(self.rfd);
+        }
+        let mut ring_b = match built {
+            Ok(r) => r,
+            Err(e) => return vec![format!("pwake setup-failed {e}")],
+        };
+        let Some(rfd_b) = simk::with_sim(|s| s.rings.keys().copied().find(|k| !before.contains(k))) else {
+            return vec!["pwake no-new-ring".into()];
+        };
+        let sq_b = ring_b.sq();
+        let raw = simk::with_ring(rfd_b, |r, _| r.fresh_fd());
+        let fd: &'static AsyncFd = Box::leak(Box::new(unsafe { AsyncFd::from_raw_fd(raw, sq_b.clone()) }));
+        drop(sq_b);
+        // keep released blocks intact for the duration of the scenario: a second processing of a
+        // completion then finds the old state (and panics in a10) instead of hanging on garbage
+        track::quarantine_all(true);
+        let wa = util::waker(991);
+        let wp = util::panicking_waker();
+        let noop = Waker::noop();
+        let mut fa = Box::pin(fd.read(Vec::with_capacity(16)));
+        let mut fb = Box::pin(fd.read(Vec::with_capacity(16)));
+        let _ = fa.as_mut().poll(&mut Context::from_waker(&wa));
+        let _ = fb.as_mut().poll(&mut Context::from_waker(&wp));
+        let _ = util::catch(|| ring_b.poll(Some(Duration::ZERO)));
+        util::drain_wakes();
+        simk::with_ring(rfd_b, |r, ev| {
+            r.post(&PostSpec::new(Target::Nth(0), 4, 0), ev);
+            r.post(&PostSpec::new(Target::Nth(0), 4, 0), ev);
+        });
+        let first = match util::catch(|| ring_b.poll(Some(Duration::ZERO))) {
+            Err(_) => "panic",
+            Ok(Ok(())) => "ok",
+            Ok(Err(_)) => "err",
+        };
+        let woken_a = util::drain_wakes().iter().filter(|w| **w == 991).count();
+        let a = match fa.as_mut().poll(&mut Context::from_waker(noop)) {
+            Poll::Ready(Ok(_)) => "ready",
+            Poll::Ready(Err(_)) => "error",
+            Poll::Pending => "pending",
+        };
+        drop(fa);
+        let second = match util::catch(|| ring_b.poll(Some(Duration::ZERO))) {
+            Err(_) => "panic",
+            Ok(Ok(())) => "ok",
+            Ok(Err(_)) => "err",
+        };
+        let again = util::drain_wakes().iter().filter(|w| **w == 991).count();
+        let b = match util::catch(|| fb.as_mut().poll(&mut Context::from_waker(noop))) {
+            Ok(Poll::Ready(Ok(_))) => "ready",
+            Ok(Poll::Ready(Err(_))) => "error",
+            Ok(Poll::Pending) => "pending",
+            Err(_) => "panic",
+        };
+        if second != "ok" || again != 0 || b != "ready" {
+            self.oracle.push(("C05".into(), "C05/reprocessed-after-panic".into(), format!("after a waker panicked inside Ring::poll (first poll: {first}, first read woken {woken_a}x and {a}), the next Ring::poll processed the batch again: it ended with {second}, woke the first read's waker {again} more time(s), the second read is {b}")));
+        }
+        let _ = util::catch(move || drop(fb));
+        let _ = util::catch(move || drop(ring_b));
+        unsafe { drop(Box::from_raw(std::ptr::from_ref(fd).cast_mut())) };
+        if unsafe { simk::raw_syscall(libc::SYS_fcntl, raw as i64, libc::F_GETFD as i64, 0, 0, 0, 0) } >= 0 {
+            unsafe { simk::raw_syscall(libc::SYS_close, raw as i64, 0, 0, 0, 0, 0) };
+        }
+        let _ = simk::drain_events();
+        simk::with_sim(|sim| {
+            let mut keep = pre;
+            keep.append(&mut sim.events);
+            sim.events = keep;
+        });
+        simk::purge_closed_except(self.rfd);
+        util::drain_wakes();
+        track::quarantine_all(false);
+        track::release_quarantine();
+        vec![format!("pwake first={first} a={a}/{woken_a} second={second}/{again} b={b}")]
+    }
+
+}
+
 impl Case for CqCase {
     fn next_op(&mut self, rng: &mut Rng) -> Option<String> {
         if self.steps_left == 0 || self.next_seq > 240 || self.poisoned {
@@ -661,6 +750,9 @@ impl Case for CqCase {
         let w_rpoll = 8;
         let w_poll = if live.is_empty() { 0 } else if woken.is_empty() { 2 } else { 8 };
         let w_bad = if rng.chance(1, 20) { 1 } else { 0 };
+        if rng.chance(1, 60) {
+            return Some("cq pwake".into());
+        }
         match rng.weighted(&[w_new, w_kpost, w_rpoll, w_poll, w_bad]) {
             0 => {
                 let kind = if rng.chance(1, 2) { "mread" } else { "write" };
@@ -758,6 +850,9 @@ impl Case for CqCase {
                 let mut posted = Self::posted_events(&evs);
                 let outs = self.outcomes(&plan, &mut posted);
                 out.push(list(&outs));
+            }
+            ["cq", "pwake"] => {
+                out = self.do_pwake();
             }
             ["cq", "rpoll", es, mid, ms, fail] => {
                 let (Some(es), Some(mid), Some(ms), Some(fail)) = (parse_specs(es), parse_nat(mid), parse_specs(ms), parse_nat(fail)) else {
